@@ -257,6 +257,32 @@ func (w *World) serverMain() {
 		return
 	}
 	w.handlers4, w.handlers6 = h4, h6
+	if w.UseConfigFile {
+		// listeners as configured: a zone binds the listener to that interface (as listen4/listen6 do)
+		w.LSpecs = nil
+		add := func(sc *config.ServerConfig, v6 bool) bool {
+			if sc == nil {
+				return true
+			}
+			for _, a := range sc.Addresses {
+				ls := ListenerSpec{V6: v6}
+				if a.Zone != "" {
+					ifi, err := simrt.InterfaceByName(a.Zone)
+					if err != nil {
+						w.StartErr[inc-1] = "listen: " + err.Error()
+						return false
+					}
+					ls.IfIndex = ifi.Index
+				}
+				w.LSpecs = append(w.LSpecs, ls)
+			}
+			return true
+		}
+		if !add(conf.Server6, true) || !add(conf.Server4, false) {
+			return
+		}
+		w.ports = make([]int, len(w.LSpecs))
+	}
 	var serve []func() error
 	for i, ls := range w.LSpecs {
 		if ls.V6 {
@@ -562,6 +588,11 @@ func drawSchedCfg(t *simrt.Tape) simrt.Config {
 		cfg.PreemptMean = 10
 		cfg.SyncPreempt = 2
 		cfg.PCT = true
+	}
+	if cfg.SyncPreempt > 0 {
+		// datagrams that arrive within a few milliseconds of each other overlap in the server
+		cfg.TimeSkip = 1 + int(t.Draw(3))
+		cfg.MaxTimeSkipNs = 5e6
 	}
 	return cfg
 }
